@@ -59,6 +59,8 @@ type c05Params struct {
 	// Sparse: every 200th byte of a payload is pseudo-random, so that the compressor produces
 	// output (and with it frames) while a large Write is still in progress, not only at its end
 	Sparse bool
+	// SameContent: all messages of all writers consist of the same byte (lengths differ)
+	SameContent bool
 }
 
 func (p c05Params) abandons() bool {
@@ -116,6 +118,9 @@ func c05Setup(prm c05Params) func(c *fw.Ctx, name string) explore.Setup {
 					tag := byte(0xA0 + ti*4 + mi)
 					if prm.Repeat {
 						tag = byte(0xA0 + ti*4)
+					}
+					if prm.SameContent {
+						tag = 0xA0 // every message of every writer: the same byte, another length
 					}
 					pl := fill(tag, n)
 					if prm.Sparse {
@@ -851,6 +856,15 @@ func c14ConcScenarios(tier string) []scenario {
 	for _, k := range []connCfg{{Client: false, Flate: true, Thr: 1}, {Client: true, Flate: true, Thr: 1, CNCT: true, SNCT: true}, {Client: true, Flate: true, Thr: 1, CNCT: true}} {
 		prm := c05Params{Prop: "C14", Name: "W2-big", K: k, Writers: [][]wop{{{Stream: true, Chunks: []int{70000, 10}}}, {{Text: true, Chunks: []int{10}}}}}
 		scs = append(scs, scenario{Name: prm.Name + "/" + k.String(), Cfg: explore.Config{P: p, Horizon: 60e9}, Setup: c05Setup(prm)})
+	}
+	// two writers whose second messages repeat their first on connections where the writing
+	// side promised to reset its compressor (both asymmetric agreements and the symmetric one):
+	// the peer decodes every message with an empty window
+	for _, k := range []connCfg{{Client: true, Flate: true, Thr: 1, CNCT: true}, {Client: false, Flate: true, Thr: 1, SNCT: true}, {Client: true, Flate: true, Thr: 1, CNCT: true, SNCT: true}} {
+		// (the peer reads nothing until 1 s: the second writer queues for the message lock while the
+		// first is parked in the transport, without a preemption)
+		prm := c05Params{Prop: "C14", Name: "W3r", K: k, SameContent: true, Window: 8, DrainAt: time.Second, Writers: [][]wop{{{Chunks: []int{300}}}, {{Text: true, Chunks: []int{302}}}}}
+		scs = append(scs, scenario{Name: prm.Name + "/" + k.String(), Cfg: explore.Config{P: 2, Horizon: 60e9}, Setup: c05Setup(prm)})
 	}
 	return scs
 }
